@@ -16,7 +16,8 @@ type FuncResult struct {
 	Trusted     bool
 	Unsupported []string
 	Obligations []*Obligation
-	Vacuity     string // sat (good), unsat (contradictory requires), unknown
+	Vacuity     string // query: the requires clauses must be satisfiable
+	VacuityStatus string // sat/unknown (fine), unsat (contradictory requires)
 	Assumptions []string
 	Props       []string
 }
@@ -77,6 +78,7 @@ func (e *Engine) verifyFunc(fn *ssa.Function) (res *FuncResult) {
 			es := e.tc.sortOf(pt.Elem())
 			cell := x.newCell(p.Name(), es)
 			init := x.fresh("in_"+p.Name(), es)
+			x.inputs = append(x.inputs, init.S)
 			st.cells[cell] = init
 			params[j] = PV{Cell: cell}
 			oc := x.newCell("old_"+p.Name(), es)
@@ -86,6 +88,7 @@ func (e *Engine) verifyFunc(fn *ssa.Function) (res *FuncResult) {
 			continue
 		}
 		t := x.fresh("in_"+p.Name(), s)
+		x.inputs = append(x.inputs, t.S)
 		params[j] = TV{T: t}
 		if isPtrType(p.Type()) {
 			olds = append(olds, TV{T: t})
